@@ -394,6 +394,16 @@ class StreamResponse(
         if self._compression:
             await self._start_compression(request)
 
+        if (
+            not self._chunked
+            and not self._must_be_empty_body
+            and version == HttpVersion11
+            and "chunked" in headers.get(hdrs.TRANSFER_ENCODING, "").lower()
+        ):
+            # What the handler's own header announces is how the body goes out.
+            self._chunked = True
+            headers.popall(hdrs.CONTENT_LENGTH, None)
+
         if self._chunked:
             if version != HttpVersion11:
                 raise RuntimeError(
